@@ -622,6 +622,10 @@ class OsrmStub:
                 durs, dists = durs[:k], dists[:k]
             elif fault == "more":
                 durs, dists = durs + [1], dists + [1]
+            elif fault == "fewer_dist":          # the two rows of one reply have different lengths
+                dists = dists[:1 + len(ids) // 2]
+            elif fault == "fewer_dur":
+                durs = durs[:1 + len(ids) // 2]
             body = json.dumps({"code": "Ok", "durations": [durs], "distances": [dists]}).encode()
             if fault == "status500":
                 self._send(conn, "500 Internal Server Error", b'{"code":"InternalError"}')
@@ -631,6 +635,8 @@ class OsrmStub:
                 self._send(conn, "200 OK", b"<html>this is not json</html>")
             elif fault == "nodurations":
                 self._send(conn, "200 OK", b'{"code":"Ok"}')
+            elif fault == "nodistances":
+                self._send(conn, "200 OK", json.dumps({"code": "Ok", "durations": [durs]}).encode())
             elif fault == "truncate":
                 self._send(conn, "200 OK", body, cut=len(body) // 2)
             else:
@@ -1079,7 +1085,7 @@ def _l2_lines(gen, ds, ops, workdir):
     return out
 
 
-FAULTS = ["refuse", "drop", "truncate", "status500", "empty", "nonjson", "nodurations", "nulls", "fewer"]
+FAULTS = ["refuse", "drop", "truncate", "status500", "empty", "nonjson", "nodurations", "nodistances", "nulls", "fewer", "fewer_dist", "fewer_dur"]
 
 
 def selftest(san=False, seeds=(1, 2, 3), keep=False):
